@@ -89,10 +89,20 @@ def summarize(result):
     )
 
 
-def patch_text(isa, lines):
+def patch_text(isa, lines, fmt="elf"):
     out = []
     for ln in lines:
-        if "l" in ln:
+        if "sec" in ln:
+            name = ln["sec"]
+            if name == ".data":
+                out.append(".data")
+            elif name == ".rodata":
+                out.append('.section .rodata,"a",@progbits' if fmt == "elf"
+                           else '.section .rodata,"dr"')
+            else:
+                out.append(f'.section {name},"aw",@progbits' if fmt == "elf"
+                           else f'.section {name},"dw"')
+        elif "l" in ln:
             out.append(f"{ln['l']}:")
         elif ln.get("k") == "bytes":
             out.append(".byte " + ", ".join(
@@ -218,7 +228,7 @@ def mirror_edits(case, lst):
             else:
                 m["toks"] = lst.patch_tokens(
                     p["lines"], idx, lst.block_fn.get(e["b"])
-                    if blk["code"] else None)
+                    if blk["code"] else None, other=lst.other)
         for t in m.get("toks", []):
             t.site = (e["b"], e["i"], e["i"] + e.get("n", 0))
         per_block.setdefault(e["b"], []).append(m)
